@@ -34,11 +34,14 @@
   deserialisation is a parameter               deserializer_is_parameter
   above the limit / reserved type ends it      oversize_or_reserved, closed_is_final
   never a nil message                          never_nil, delivered_are_deserialised
-  PING -> PONG, same payload                   ping, ping_truncated, pong_ignored
-  writers: what IS guaranteed                  write_calls_ordered_per_goroutine,
-                                               sender_alone_never_interleaves, locked_writers_ok
-  writers: what is NOT (finding F18)           no_interleaving_full (def),
-                                               no_interleaving_full_fails (witness)
+  PING -> PONG, same payload                   ping, ping_one_write, ping_truncated, pong_ignored
+  frames of the two writers never interleave   write_calls_ordered_per_goroutine,
+                                               sender_alone_never_interleaves, locked_writers_ok,
+                                               no_interleaving, no_interleaving_full_holds
+  ... because each frame is ONE Write call      frame_shape, ping_one_write; the two-call shape the
+                                               code had before does corrupt: split_writes_corrupt
+  queued before Close => written before exit   drain_writes_all, drain_delivers
+                                               (without draining: no_drain_can_lose)
 -/
 import Nexus.Frame.HandshakeLemmas
 import Nexus.Frame.StreamLemmas
@@ -201,19 +204,19 @@ theorem sender_drops_iff (sl : Int) (p : List UInt8) :
     rw [e]; simp
 
 /-- What is written: type byte 0, the length in three big-endian bytes, the payload untouched;
-    as two write calls, header then payload. -/
+    as ONE write call. -/
 theorem frame_shape (sl : Int) (p : List UInt8) (h : (p.length : Int) ≤ sl) (h24 : p.length ≤ 2 ^ 24 - 1) :
     ∃ a b c : UInt8, frame sl p = some (0 :: a :: b :: c :: p) ∧
-      frameWrites sl p = some [[0, a, b, c], p] ∧
+      frameWrites sl p = some [0 :: a :: b :: c :: p] ∧
       Gen.bytesToInt [a, b, c] = Int.ofNat p.length := by
   obtain ⟨a, b, c, e, ha, hb, hc⟩ := intToBytes_ofNat p.length
   have hf := (fits_iff sl p).mpr ⟨h, h24⟩
-  have hw : frameWrites sl p = some [[0, a, b, c], p] := by
+  have hw : frameWrites sl p = some [0 :: a :: b :: c :: p] := by
     unfold frameWrites
     unfold fits at hf
     rw [if_neg (by simpa using hf)]
     simp only [frameHeader, e, Gen.sendHeader]
-    simp
+    simp [Gen.senderWriteParts, writePart]
   refine ⟨a, b, c, ?_, hw, ?_⟩
   · unfold frame; rw [hw]; simp
   · rw [bytesToInt_three, ha, hb, hc]
@@ -403,36 +406,38 @@ theorem ping {M : Type} (de : List UInt8 → Option M) (rl : Int) (h0 l0 l1 l2 :
     rw [readerCase_frameType, if_neg (by omega), if_pos ht]
   unfold decodeStream
   rw [run_ping_frame de rl h0 l0 l1 l2 p rest hk hn hle]
-  refine ⟨?_, ?_, rfl⟩
-  · simp only [written, List.cons_append]
-    rw [written_append, written_map_wrote]
-    simp
-  · rw [delivered_append]
-    rw [show delivered (Ev.wrote [2, l0, l1, l2] :: List.map (fun b => (Ev.wrote [b] : Ev M)) p) =
-      delivered (List.map (fun b => (Ev.wrote [b] : Ev M)) p) from rfl, delivered_map_wrote]
-    rfl
+  exact ⟨rfl, rfl, rfl⟩
 
 example : written (decodeStream (M := List UInt8) some 512 [0x01, 0, 0, 2, 0xAA, 0xBB]).1 =
     [0x02, 0, 0, 2, 0xAA, 0xBB] := by decide
 
-/-- A PING whose payload has not arrived completely: the PONG header and the part that is
-    there have been written, and the reader waits (io.CopyN in progress). -/
-theorem ping_truncated {M : Type} (de : List UInt8 → Option M) (rl : Int) (h0 l0 l1 l2 : UInt8)
-    (n : Nat) (p : List UInt8) (ht : h0.toNat % 8 = 1)
-    (hn : Gen.bytesToInt [l0, l1, l2] = Int.ofNat n) (hle : (n : Int) ≤ rl) (hp : p.length < n) :
-    written (decodeStream de rl (h0 :: l0 :: l1 :: l2 :: p)).1 = 2 :: l0 :: l1 :: l2 :: p ∧
-      (decodeStream de rl (h0 :: l0 :: l1 :: l2 :: p)).2 = .echo (n - 1 - p.length) := by
+/-- ... and the PONG frame goes out as ONE write call, made after the whole payload is there. -/
+theorem ping_one_write {M : Type} (de : List UInt8 → Option M) (rl : Int) (h0 l0 l1 l2 : UInt8)
+    (p rest : List UInt8) (ht : h0.toNat % 8 = 1)
+    (hn : Gen.bytesToInt [l0, l1, l2] = Int.ofNat p.length) (hle : (p.length : Int) ≤ rl) :
+    (decodeStream de rl (h0 :: l0 :: l1 :: l2 :: (p ++ rest))).1 =
+      Ev.wrote (2 :: l0 :: l1 :: l2 :: p) :: (decodeStream de rl rest).1 := by
   have hk : Gen.readerCase (Gen.frameType h0) = .ping := by
     rw [readerCase_frameType, if_neg (by omega), if_pos ht]
   unfold decodeStream
-  rw [run_ping_truncated de rl h0 l0 l1 l2 n p hk hn hle hp]
-  refine ⟨?_, rfl⟩
-  simp only [written]
-  rw [written_map_wrote]
-  rfl
+  rw [run_ping_frame de rl h0 l0 l1 l2 p rest hk hn hle]
+
+example : (decodeStream (M := List UInt8) some 512 [0x01, 0, 0, 2, 0xAA, 0xBB, 0x01, 0, 0, 0]).1 =
+    [.wrote [0x02, 0, 0, 2, 0xAA, 0xBB], .wrote [0x02, 0, 0, 0]] := by decide
+
+/-- A PING whose payload has not arrived completely: NOTHING has been written (no PONG header
+    ahead of the payload); the reader waits with what it has. -/
+theorem ping_truncated {M : Type} (de : List UInt8 → Option M) (rl : Int) (h0 l0 l1 l2 : UInt8)
+    (n : Nat) (p : List UInt8) (ht : h0.toNat % 8 = 1)
+    (hn : Gen.bytesToInt [l0, l1, l2] = Int.ofNat n) (hle : (n : Int) ≤ rl) (hp : p.length < n) :
+    decodeStream de rl (h0 :: l0 :: l1 :: l2 :: p) =
+      ([], .pbody l0 l1 l2 (n - 1 - p.length) p.reverse) := by
+  have hk : Gen.readerCase (Gen.frameType h0) = .ping := by
+    rw [readerCase_frameType, if_neg (by omega), if_pos ht]
+  exact run_ping_truncated de rl h0 l0 l1 l2 n p hk hn hle hp
 
 example : decodeStream (M := List UInt8) some 512 [0x09, 0, 0, 5, 0xAA, 0xBB] =
-    ([.wrote [2, 0, 0, 5], .wrote [0xAA], .wrote [0xBB]], .echo 2) := by decide
+    ([], .pbody 0 0 5 2 [0xBB, 0xAA]) := by decide
 
 /-- A PONG frame is read and dropped. -/
 theorem pong_ignored {M : Type} (de : List UInt8 → Option M) (rl : Int) (h0 l0 l1 l2 : UInt8)
@@ -456,17 +461,15 @@ theorem write_calls_ordered_per_goroutine (sl : Int) (payloads : List (List UInt
       log.filter (fun c => !(c.role == .sender)) = readerCalls pongs := by
   apply Merge.filter (fun c => c.role == .sender) h
   · intro a ha
-    unfold senderCalls at ha
-    obtain ⟨b, _, rfl⟩ := List.mem_map.mp ha
+    rw [senderCalls_units] at ha
+    obtain ⟨u, hu, rfl⟩ := List.mem_map.mp ha
+    obtain ⟨p, _, rfl⟩ := List.mem_map.mp hu
     rfl
   · intro b hb
-    unfold readerCalls at hb
-    obtain ⟨q, _, hq⟩ := List.mem_flatMap.mp hb
-    unfold pongCalls at hq
-    rcases List.mem_cons.mp hq with e | hq
-    · rw [e]; rfl
-    · obtain ⟨c, _, rfl⟩ := List.mem_map.mp hq
-      rfl
+    rw [readerCalls_units sl] at hb
+    obtain ⟨u, hu, rfl⟩ := List.mem_map.mp hb
+    obtain ⟨q, _, rfl⟩ := List.mem_map.mp hu
+    rfl
 
 /-- As long as the reader goroutine writes nothing (no PING arrives), the sender's frames
     reach the other side whole, and `stream_then`/`stream` applies to them. -/
@@ -480,11 +483,10 @@ theorem sender_alone_never_interleaves {M : Type} (de : List UInt8 → Option M)
   rw [wire_senderCalls]
   exact ⟨rfl, (stream_payloads de sl rl hsl payloads).1⟩
 
-/-- the PONG used in the examples: header 02 00 00 02, payload in one chunk -/
-def f18PongUnit : Pong := ⟨0, 0, 2, [[0x50, 0x50]]⟩
+/-- the PONG used in the examples: header 02 00 00 02, payload 50 50 -/
+def f18PongUnit : Pong := ⟨0, 0, 2, [0x50, 0x50]⟩
 
-/-- If whole frames were the atomic unit (a lock held around the two writes of the sender
-    and around the reader's PONG), every interleaving would be harmless: the other side gets
+/-- When whole frames are the atomic unit, every interleaving is harmless: the other side gets
     exactly the messages that fit, in order, and skips the PONGs. -/
 theorem locked_writers_ok {M : Type} (de : List UInt8 → Option M) (sl rl : Int) (hsl : sl ≤ rl)
     (payloads : List (List UInt8)) (pongs : List Pong) (hw : ∀ q, q ∈ pongs → q.wellFormed rl)
@@ -521,55 +523,116 @@ example : decodeStream (M := List UInt8) some 512
     ([WUnit.msg [0x41], .pong f18PongUnit, .msg [0x42]].flatMap (WUnit.bytes 512)) =
     ([.deliver [0x41], .deliver [0x42]], .hdr0) := by decide
 
-/-- The full statement one would like: whatever the scheduling of the two goroutines' write
-    calls, the other side receives the sender's messages intact and in order. -/
+/-- FRAMES OF THE TWO WRITERS NEVER INTERLEAVE.  Whatever the scheduling of the two
+    goroutines' write calls (any `Merge`), for every queue of messages, every sequence of answered
+    PINGs and every deserializer, the other side receives exactly the sender's messages that fit,
+    intact and in order — because, with the write calls the source makes today
+    (`Gen.senderWriteParts`, `Gen.pongWriteParts`), every frame is one atomic `Write`. -/
+theorem no_interleaving {M : Type} (de : List UInt8 → Option M) (sl rl : Int) (hsl : sl ≤ rl)
+    (payloads : List (List UInt8)) (pongs : List Pong) (hw : ∀ q, q ∈ pongs → q.wellFormed rl)
+    (log : List WriteCall) (h : Merge (senderCalls sl payloads) (readerCalls pongs) log) :
+    decodeStream de rl (wire log) = ((payloads.filter (fits sl)).flatMap (payloadEvents de), .hdr0) := by
+  rw [senderCalls_units, readerCalls_units sl] at h
+  obtain ⟨units, hlog, hm⟩ := Merge.of_map (WUnit.call sl) h
+  have hwire : wire log = units.flatMap (WUnit.bytes sl) := by
+    subst hlog
+    unfold wire
+    rw [List.map_map]
+    have : ((fun c : WriteCall => c.bytes) ∘ WUnit.call sl) = WUnit.bytes sl := by
+      funext u; exact WUnit.call_bytes sl u
+    rw [this, List.flatMap_def]
+  rw [hwire]
+  exact locked_writers_ok de sl rl hsl payloads pongs hw units hm
+
+/-- The full statement (formerly false of the model: finding F18). -/
 def no_interleaving_full : Prop :=
   ∀ (sl rl : Int) (payloads : List (List UInt8)) (pongs : List Pong) (log : List WriteCall),
     sl ≤ rl → (∀ q, q ∈ pongs → q.wellFormed rl) →
     Merge (senderCalls sl payloads) (readerCalls pongs) log →
     delivered (decodeStream (M := List UInt8) some rl (wire log)).1 = payloads.filter (fits sl)
 
-/-- The message and the PONG of the witness. -/
+theorem no_interleaving_full_holds : no_interleaving_full := by
+  intro sl rl payloads pongs log hsl hw h
+  rw [no_interleaving some sl rl hsl payloads pongs hw log h]
+  rw [delivered_payloadEvents]
+  induction (payloads.filter (fits sl)) with
+  | nil => rfl
+  | cons p ps ih => simp [ih]
+
+/-- The message and the PONG of the examples. -/
 def f18Payload : List UInt8 := [0x41, 0x41, 0x41, 0x41, 0x41, 0x41, 0x41, 0x41]
-def f18Pong : Pong := ⟨0, 0, 2, [[0x50, 0x50]]⟩
+
+/-- non-vacuity of `no_interleaving`: a PONG scheduled between two messages -/
+example : Merge (senderCalls 512 [f18Payload, [0x42]]) (readerCalls [f18PongUnit])
+    [⟨.sender, 0 :: 0 :: 0 :: 8 :: f18Payload⟩, ⟨.reader, [2, 0, 0, 2, 0x50, 0x50]⟩,
+     ⟨.sender, [0, 0, 0, 1, 0x42]⟩] := by
+  have hs : senderCalls 512 [f18Payload, [0x42]] =
+      [⟨.sender, 0 :: 0 :: 0 :: 8 :: f18Payload⟩, ⟨.sender, [0, 0, 0, 1, 0x42]⟩] := by decide
+  have hr : readerCalls [f18PongUnit] = [⟨.reader, [2, 0, 0, 2, 0x50, 0x50]⟩] := by decide
+  rw [hs, hr]
+  exact .left (.right (.left .nil))
+example : f18PongUnit.wellFormed 512 := by
+  refine ⟨?_, by decide⟩
+  rw [show f18PongUnit.l0 = 0 from rfl, show f18PongUnit.l1 = 0 from rfl,
+    show f18PongUnit.l2 = 2 from rfl, bytesToInt_three]
+  rfl
+
+/-- non-vacuity of `sender_alone_never_interleaves`: the sender's calls alone are a log -/
+example : Merge (senderCalls 512 [f18Payload]) [] (senderCalls 512 [f18Payload]) := by
+  have hs : senderCalls 512 [f18Payload] = [⟨.sender, 0 :: 0 :: 0 :: 8 :: f18Payload⟩] := by decide
+  rw [hs]
+  exact .left .nil
+
+/-! ### the two-call shape the code had before -/
+
 /-- sender header | reader PONG header | reader PONG payload | sender payload -/
 def f18Log : List WriteCall :=
   [⟨.sender, [0, 0, 0, 8]⟩, ⟨.reader, [2, 0, 0, 2]⟩, ⟨.reader, [0x50, 0x50]⟩, ⟨.sender, f18Payload⟩]
 
-theorem f18_log_is_a_schedule : Merge (senderCalls 512 [f18Payload]) (readerCalls [f18Pong]) f18Log := by
-  have hs : senderCalls 512 [f18Payload] = [⟨.sender, [0, 0, 0, 8]⟩, ⟨.sender, f18Payload⟩] := by decide
-  have hr : readerCalls [f18Pong] = [⟨.reader, [2, 0, 0, 2]⟩, ⟨.reader, [0x50, 0x50]⟩] := by decide
-  rw [hs, hr]
-  exact .left (.right (.right (.left .nil)))
+/-- Had the sender written header and payload as two calls and the reader answered with two
+    calls (as the code did), this schedule would be legal, and the other side would read one
+    corrupted message (the PONG spliced into it), take the tail of the real payload for a header
+    and close the connection. -/
+theorem split_writes_corrupt :
+    Merge (senderCallsSplit 512 [f18Payload]) (pongCallsSplit f18PongUnit) f18Log ∧
+      decodeStream (M := List UInt8) some 512 (wire f18Log) =
+        ([.deliver [2, 0, 0, 2, 0x50, 0x50, 0x41, 0x41]], .closed .oversize) := by
+  constructor
+  · have hs : senderCallsSplit 512 [f18Payload] = [⟨.sender, [0, 0, 0, 8]⟩, ⟨.sender, f18Payload⟩] := by
+      decide
+    have hr : pongCallsSplit f18PongUnit = [⟨.reader, [2, 0, 0, 2]⟩, ⟨.reader, [0x50, 0x50]⟩] := by decide
+    rw [hs, hr]
+    exact .left (.right (.right (.left .nil)))
+  · decide
 
-/-- What the other side makes of it: one corrupted message (the PONG spliced into it), then the
-    tail of the real payload is taken for a header and the connection is closed. -/
-theorem f18_corrupts :
-    decodeStream (M := List UInt8) some 512 (wire f18Log) =
-      ([.deliver [2, 0, 0, 2, 0x50, 0x50, 0x41, 0x41]], .closed .oversize) := by decide
+/-! ## closing: what was queued is written first -/
 
-/-- non-vacuity of `sender_alone_never_interleaves`: the sender's calls alone are a log -/
-example : Merge (senderCalls 512 [f18Payload]) [] (senderCalls 512 [f18Payload]) := by
-  have hs : senderCalls 512 [f18Payload] = [⟨.sender, [0, 0, 0, 8]⟩, ⟨.sender, f18Payload⟩] := by decide
-  rw [hs]
-  exact .left (.left .nil)
+/-- Once the sender goroutine's context is cancelled (`Close`, or EOF seen by the reader), with
+    `queue` sitting in `rs.wr`: whatever the scheduler picks in the `select`s, the goroutine
+    makes the write calls of EVERY queued message, in order, before it exits (writes taken to
+    succeed). `Gen.senderDrainsOnDone` is the fact extracted from `sendHandler`. -/
+theorem drain_writes_all {M : Type} (ser : M → Option (List UInt8)) (sl : Int)
+    (oracle : List Bool) (queue : List M) :
+    afterCancel Gen.senderDrainsOnDone (messageCalls ser sl) oracle queue =
+      queue.flatMap (messageCalls ser sl) :=
+  afterCancel_drains (messageCalls ser sl) oracle queue
 
-/-- FINDING F18: the full statement is false of the model (which mirrors the code: no lock
-    around the writes): the schedule above delivers a corrupted message. -/
-theorem no_interleaving_full_fails : ¬ no_interleaving_full := by
-  intro h
-  have hw : ∀ q, q ∈ [f18Pong] → q.wellFormed 512 := by
-    intro q hq
-    rcases List.mem_cons.mp hq with e | hq
-    · subst e
-      refine ⟨?_, by decide⟩
-      rw [show f18Pong.l0 = 0 from rfl, show f18Pong.l1 = 0 from rfl, show f18Pong.l2 = 2 from rfl,
-        bytesToInt_three]
-      rfl
-    · cases hq
-  have := h 512 512 [f18Payload] [f18Pong] f18Log (by decide) hw f18_log_is_a_schedule
-  rw [f18_corrupts] at this
-  revert this
-  decide
+/-- ... so the other side receives every queued message that serialises and fits, in order. -/
+theorem drain_delivers {M : Type} (ser : M → Option (List UInt8)) (de : List UInt8 → Option M)
+    (hrt : ∀ m p, ser m = some p → de p = some m) (sl rl : Int) (hsl : sl ≤ rl)
+    (oracle : List Bool) (queue : List M) :
+    decodeStream de rl (wire (afterCancel Gen.senderDrainsOnDone (messageCalls ser sl) oracle queue)) =
+      ((queue.filter (arrives ser sl)).map Ev.deliver, .hdr0) := by
+  rw [drain_writes_all, wire_messageCalls]
+  exact stream ser de hrt sl rl hsl queue
+
+example : wire (afterCancel (M := Nat) Gen.senderDrainsOnDone
+    (messageCalls (fun n => some (List.replicate n 0x61)) 512) [true, false] [1, 2, 3]) =
+    [0, 0, 0, 1, 0x61, 0, 0, 0, 2, 0x61, 0x61, 0, 0, 0, 3, 0x61, 0x61, 0x61] := by decide
+
+/-- Without the drain (the code before the fix: `case <-senderDone: return`) a queued message
+    could be lost: the scheduler picks `<-senderDone` first. -/
+theorem no_drain_can_lose {M : Type} (w : M → List WriteCall) (m : M) (q : List M) :
+    afterCancel false w [false] (m :: q) = [] := rfl
 
 end Nexus.C15
